@@ -107,7 +107,7 @@ func stableGoroutines() int {
 	return prev
 }
 
-var last struct{ txs int }
+var last struct{ txs, conns, goroutines int }
 
 var cold = true // the first workload of the process
 
@@ -194,6 +194,7 @@ func runCase(c Case) *pt.Failure {
 			return pt.Failf("C20/xa-branch-left", "XA branches left in the database: %v", left)
 		}
 		conns1, _, _ := env.Srv.Stats()
+		last.conns, last.goroutines = conns1, stableGoroutines()
 		if wasCold {
 			return nil // pools, singletons and background goroutines came into being during this workload
 		}
@@ -386,6 +387,30 @@ func TestPropConcurrentWorkload(t *testing.T) {
 		fl := runCase(c)
 		ctx.Rec.Case("cold-start", true, "cold-start", c, "cold-start")
 		ctx.Judge(t, "cold-start", fl, c)
+		// a fixed second workload, with the leak probes on: branches that end in phase one (a failing last
+		// statement) of every kind, so that phase two finds nothing to finish
+		w := Case{Tables: 1}
+		for i, k := range []string{"xa", "xa", "at", "xa", "tcc", "at"} {
+			w.Workers = append(w.Workers, []Tx{{Kind: k, Via: []string{"db", "conn"}[i%2], Rows: []int{1 + i}, Decision: []string{"rollback", "commit"}[i%2], FailStmt: i != 4},
+				{Kind: k, Via: "db", Rows: []int{8 - i}, Decision: "commit"}})
+		}
+		// run three times: what a transaction loses (a connection, a goroutine) shows as growth from run to run,
+		// however small against the slack of a single comparison
+		var conns, gor []int
+		for rep := 0; rep < 3 && fl == nil; rep++ {
+			fl = runCase(w)
+			conns, gor = append(conns, last.conns), append(gor, last.goroutines)
+		}
+		if fl == nil && conns[2] > conns[1] && conns[1] > conns[0] {
+			fl = pt.Failf("C20/connection-leak", "server connections after three runs of the same workload (idle connections closed each time): %v", conns)
+		}
+		if fl == nil && gor[2] > gor[1] && gor[1] > gor[0] {
+			buf := make([]byte, 1<<20)
+			buf = buf[:runtime.Stack(buf, true)]
+			fl = pt.Failf("C20/goroutine-leak", "goroutines after three runs of the same workload: %v\n%s", gor, trimStacks(string(buf)))
+		}
+		ctx.Rec.Case("workload", true, "fixed-failing-branches", w, "fixed-failing-branches")
+		ctx.Judge(t, "workload", fl, w)
 	}
 	ctx.Check(t, func(rt *rapid.T) {
 		c := Case{NewConns: rapid.IntRange(0, 3).Draw(rt, "newConns") == 0, Tables: rapid.IntRange(1, 2).Draw(rt, "tables")}
